@@ -417,6 +417,43 @@ func onlyVia(fn *ssa.Function, target ssa.Instruction, via edgePred) bool {
 	return reach(fn, nil, func(i ssa.Instruction) bool { return i == target }, nil, via) == nil
 }
 
+// valuesAt: the values v can hold when control arrives at site. A φ stands for those of its inputs whose
+// edge can be followed by the site: input k is left out when, entering the φ's block from predecessor k,
+// the branches that the φ-inputs of that very edge decide (a `found` flag merged together with the value
+// it vouches for, tested before the value is used) lead away from the site. Coming by the block again
+// gives the φ a new value, which the other inputs account for. One level only: an input that is itself
+// a φ is returned as it is.
+func valuesAt(v ssa.Value, site ssa.Instruction) []ssa.Value {
+	phi, ok := v.(*ssa.Phi)
+	if !ok || site == nil || site.Parent() != phi.Parent() {
+		return []ssa.Value{v}
+	}
+	blk := phi.Block()
+	first := blk.Instrs[0]
+	var out []ssa.Value
+	for k, e := range phi.Edges {
+		if k >= len(blk.Preds) {
+			return []ssa.Value{v}
+		}
+		hit := reach1(phi.Parent(), first, blk.Preds[k], func(i ssa.Instruction) bool { return i == site },
+			func(i ssa.Instruction) bool { return i == first }, nil, true)
+		if hit == nil {
+			continue
+		}
+		dup := false
+		for _, o := range out {
+			dup = dup || o == e
+		}
+		if !dup {
+			out = append(out, e)
+		}
+	}
+	if len(out) == 0 {
+		return []ssa.Value{v}
+	}
+	return out
+}
+
 // boolImplies: the boolean v can have the value truth only on executions on which base holds. base judges
 // a (value, truth) pair directly ("this is the lookup's ok, false"); what is added here is the ways a
 // program carries such a fact in another variable:
